@@ -1470,6 +1470,15 @@ func (e *CoreExtension) filterLast(value interface{}, args ...interface{}) (inte
 	return nil, fmt.Errorf("cannot get last element of %T", value)
 }
 
+// sliceTypeOf returns the slice type to use for a result derived from a slice or
+// an array value (reflect.MakeSlice panics when it is given an array type)
+func sliceTypeOf(rv reflect.Value) reflect.Type {
+	if rv.Kind() == reflect.Array {
+		return reflect.SliceOf(rv.Type().Elem())
+	}
+	return rv.Type()
+}
+
 func (e *CoreExtension) filterReverse(value interface{}, args ...interface{}) (interface{}, error) {
 	if value == nil {
 		return nil, nil
@@ -1504,7 +1513,7 @@ func (e *CoreExtension) filterReverse(value interface{}, args ...interface{}) (i
 		return string(runes), nil
 	case reflect.Array, reflect.Slice:
 		// Create a new slice with the same type
-		resultSlice := reflect.MakeSlice(rv.Type(), rv.Len(), rv.Len())
+		resultSlice := reflect.MakeSlice(sliceTypeOf(rv), rv.Len(), rv.Len())
 		for i, j := 0, rv.Len()-1; j >= 0; i, j = i+1, j-1 {
 			resultSlice.Index(i).Set(rv.Index(j))
 		}
@@ -1665,7 +1674,7 @@ func (e *CoreExtension) filterSlice(value interface{}, args ...interface{}) (int
 			start = 0
 		}
 		if start >= count {
-			return reflect.MakeSlice(rv.Type(), 0, 0).Interface(), nil
+			return reflect.MakeSlice(sliceTypeOf(rv), 0, 0).Interface(), nil
 		}
 
 		// Calculate end index
@@ -1684,7 +1693,7 @@ func (e *CoreExtension) filterSlice(value interface{}, args ...interface{}) (int
 		}
 
 		// Create a new slice with the same type
-		result := reflect.MakeSlice(rv.Type(), end-start, end-start)
+		result := reflect.MakeSlice(sliceTypeOf(rv), end-start, end-start)
 		for i := start; i < end; i++ {
 			result.Index(i - start).Set(rv.Index(i))
 		}
@@ -1755,7 +1764,7 @@ func (e *CoreExtension) filterMerge(value interface{}, args ...interface{}) (int
 			return merged, nil
 		}
 
-		result := reflect.MakeSlice(rv.Type(), rv.Len(), rv.Len())
+		result := reflect.MakeSlice(sliceTypeOf(rv), rv.Len(), rv.Len())
 
 		// Copy original values
 		for i := 0; i < rv.Len(); i++ {
@@ -1767,7 +1776,7 @@ func (e *CoreExtension) filterMerge(value interface{}, args ...interface{}) (int
 			argRv := reflect.ValueOf(arg)
 			if argRv.Kind() == reflect.Slice || argRv.Kind() == reflect.Array {
 				// Create a new slice with expanded capacity
-				newResult := reflect.MakeSlice(rv.Type(), result.Len()+argRv.Len(), result.Len()+argRv.Len())
+				newResult := reflect.MakeSlice(sliceTypeOf(rv), result.Len()+argRv.Len(), result.Len()+argRv.Len())
 
 				// Copy existing values
 				for i := 0; i < result.Len(); i++ {
@@ -1931,7 +1940,7 @@ func (e *CoreExtension) filterSort(value interface{}, args ...interface{}) (inte
 	// Try reflection for other types
 	rv := reflect.ValueOf(value)
 	if rv.Kind() == reflect.Slice || rv.Kind() == reflect.Array {
-		result := reflect.MakeSlice(rv.Type(), rv.Len(), rv.Len())
+		result := reflect.MakeSlice(sliceTypeOf(rv), rv.Len(), rv.Len())
 		for i := 0; i < rv.Len(); i++ {
 			result.Index(i).Set(rv.Index(i))
 		}
